@@ -3,6 +3,7 @@ package rules
 import (
 	"fmt"
 	"go/ast"
+	"go/token"
 	"go/types"
 	"reflect"
 	"regexp"
@@ -354,9 +355,9 @@ func ruleHashAgreement(c *core.Ctx) {
 	info := d.Pkg.TypesInfo
 	encPrev := false
 	for _, call := range callsTo(info, d.Decl.Body, named("Encode")) {
-		if len(call.Args) == 1 && astx.SelectorPath(call.Args[0]) == "previous.Hash" {
+		if len(call.Args) == 1 && canonPath(d, call.Args[0]) == "p0.Hash" {
 			for _, f := range astx.FactsAt(info, d.Decl.Body, call.Pos()) {
-				if !f.Positive && types.ExprString(f.Cond) == "previous == nil" {
+				if be, isBin := ast.Unparen(f.Cond).(*ast.BinaryExpr); isBin && !f.Positive && be.Op == token.EQL && canonPath(d, be.X) == "p0" && astx.IsNilExpr(info, be.Y) {
 					encPrev = true
 				}
 			}
@@ -373,45 +374,30 @@ func ruleMemento(c *core.Ctx) {
 	if d == nil || s == nil {
 		return
 	}
-	usesMemento := func(di *astx.DeclInfo) bool {
-		ok := false
-		ast.Inspect(di.Decl.Body, func(n ast.Node) bool {
-			as, isAs := n.(*ast.AssignStmt)
-			if !isAs || len(as.Rhs) != 1 {
-				return true
-			}
-			if call, isCall := as.Rhs[0].(*ast.CallExpr); isCall {
-				if f := astx.Callee(di.Pkg.TypesInfo, call); f != nil && f.Name() == "GetMemento" {
-					// the result must replace the value that is encoded afterwards
-					id, isID := as.Lhs[0].(*ast.Ident)
-					if !isID || id.Name == "_" {
-						return true
+	isMemento := func(f *types.Func) bool { return f.Name() == "GetMemento" }
+	// the value hashed as `data` may come from GetMemento()
+	{
+		var dataVals []ast.Expr
+		inScope(fnScope(c, d, 1), func(sd *astx.DeclInfo) {
+			ast.Inspect(sd.Decl.Body, func(n ast.Node) bool {
+				if kv, ok := n.(*ast.KeyValueExpr); ok {
+					if k, isK := kv.Key.(*ast.Ident); isK && k.Name == "Data" && sd == d {
+						dataVals = append(dataVals, kv.Value)
 					}
-					obj := di.Pkg.TypesInfo.ObjectOf(id)
-					ast.Inspect(di.Decl.Body, func(y ast.Node) bool {
-						switch v := y.(type) {
-						case *ast.KeyValueExpr:
-							if k, isK := v.Key.(*ast.Ident); isK && k.Name == "Data" {
-								if u, isU := v.Value.(*ast.Ident); isU && di.Pkg.TypesInfo.Uses[u] == obj {
-									ok = true
-								}
-							}
-						case *ast.CallExpr:
-							if cf := astx.Callee(di.Pkg.TypesInfo, v); cf != nil && cf.Name() == "Marshal" && len(v.Args) == 1 {
-								if u, isU := v.Args[0].(*ast.Ident); isU && di.Pkg.TypesInfo.Uses[u] == obj {
-									ok = true
-								}
-							}
-						}
-						return true
-					})
 				}
-			}
-			return true
+				return true
+			})
 		})
-		return ok
+		if len(dataVals) == 0 {
+			c.Unrecognised("HASH/memento", "go:ComputeHash-hashes-memento", pos(c, d.Decl), "no `Data:` field in the struct ComputeHash encodes")
+		} else {
+			ok := true
+			for _, v := range dataVals {
+				ok = ok && mayFlowFromCall(c, d, v, isMemento, nil, 0, map[types.Object]bool{})
+			}
+			c.Check(ok, "HASH/memento", "go:ComputeHash-hashes-memento", pos(c, d.Decl), "payload = GetMemento() when available", "Log.ComputeHash hashes the full payload instead of its memento")
+		}
 	}
-	c.Check(usesMemento(d), "HASH/memento", "go:ComputeHash-hashes-memento", pos(c, d.Decl), "payload = GetMemento() when available", "Log.ComputeHash hashes the full payload instead of its memento")
 	// both sides must produce the same bytes for the memento: the stored column is written by
 	// json.Marshal (default escaping), so the hashing encoder must keep the defaults too
 	{
@@ -427,34 +413,27 @@ func ruleMemento(c *core.Ctx) {
 		})
 		c.Check(len(opts) == 0, "HASH/memento", "go:ComputeHash-encoder-defaults", pos(c, d.Decl), "json.Encoder with default escaping and no indentation", "Log.ComputeHash changes the encoder's defaults ("+strings.Join(opts, ", ")+") while the memento column Postgres hashes is written by json.Marshal with the defaults: the two sides hash different bytes for any text containing <, > or &")
 	}
-	stored := false
-	info := s.Pkg.TypesInfo
-	var memVar types.Object
-	ast.Inspect(s.Decl.Body, func(n ast.Node) bool {
-		as, ok := n.(*ast.AssignStmt)
-		if !ok || len(as.Rhs) != 1 {
+	// the stored memento column is json.Marshal of a value that may come from GetMemento()
+	{
+		var memVals []ast.Expr
+		ast.Inspect(s.Decl.Body, func(n ast.Node) bool {
+			if cl, ok := n.(*ast.CompositeLit); ok {
+				if v := fieldOfCompositeLit(cl, "Memento"); v != nil {
+					memVals = append(memVals, v)
+				}
+			}
 			return true
-		}
-		if call, ok := as.Rhs[0].(*ast.CallExpr); ok {
-			if f := astx.Callee(info, call); f != nil && f.Pkg() != nil && f.Pkg().Path() == "encoding/json" && f.Name() == "Marshal" && len(call.Args) == 1 && astx.SelectorPath(call.Args[0]) == "mementoObject" {
-				if id, ok := as.Lhs[0].(*ast.Ident); ok {
-					memVar = info.ObjectOf(id)
-				}
+		})
+		if len(memVals) == 0 {
+			c.Unrecognised("HASH/memento", "go:InsertLog-stores-memento", pos(c, s.Decl), "no `Memento:` field written in InsertLog")
+		} else {
+			ok := true
+			for _, v := range memVals {
+				ok = ok && mayFlowFromCall(c, s, v, isMemento, map[string]bool{"Marshal": true}, 0, map[types.Object]bool{})
 			}
+			c.Check(ok, "HASH/memento", "go:InsertLog-stores-memento", pos(c, s.Decl), "logs.memento = json.Marshal(GetMemento())", "the memento column no longer holds json.Marshal of the payload's memento: SQL would hash different bytes than Go")
 		}
-		return true
-	})
-	ast.Inspect(s.Decl.Body, func(n ast.Node) bool {
-		if cl, ok := n.(*ast.CompositeLit); ok {
-			if v := fieldOfCompositeLit(cl, "Memento"); v != nil {
-				if id, ok := v.(*ast.Ident); ok && info.Uses[id] == memVar && memVar != nil {
-					stored = true
-				}
-			}
-		}
-		return true
-	})
-	c.Check(stored && usesMemento(s), "HASH/memento", "go:InsertLog-stores-memento", pos(c, s.Decl), "logs.memento = json.Marshal(GetMemento())", "the memento column no longer holds json.Marshal of the payload's memento: SQL would hash different bytes than Go")
+	}
 }
 
 func rulePredecessor(c *core.Ctx) {
@@ -504,20 +483,22 @@ func ruleLogInsertLock(c *core.Ctx) []string {
 	key := declKey(d)
 	var locks, inserts []int
 	var vals []string
-	stmts := stmtsIn(m, d)
+	stmts := stmtsInScope(c, m, d, 1)
 	okLock := false
-	for i, s := range stmts {
-		if s.Kind == "raw" && strings.Contains(s.RawText, "pg_advisory_xact_lock") {
+	for i, ss := range stmts {
+		s := ss.S
+		if s.Kind == "raw" && strings.Contains(strings.ToLower(s.RawText), "pg_advisory_xact_lock") {
 			locks = append(locks, i)
-			ff := astx.FeatureFacts(info, astx.FactsAt(info, d.Decl.Body, s.Pos()))
+			facts := scopeFactsAtPos(d, ss.D, s.Pos())
+			ff := astx.FeatureFacts(info, facts)
 			for k, v := range ff {
 				if v && strings.HasPrefix(k, "HASH_LOGS=") {
 					vals = append(vals, strings.TrimPrefix(k, "HASH_LOGS="))
 				}
 			}
 			others := 0
-			for _, f := range astx.FactsAt(info, d.Decl.Body, s.Pos()) {
-				if astx.AsFeatureTest(info, f.Cond) == nil {
+			for _, f := range facts {
+				if astx.AsFeatureTest(info, f.Cond) == nil && !isErrNilTest(info, f.Cond) {
 					others++
 				}
 			}
@@ -533,21 +514,31 @@ func ruleLogInsertLock(c *core.Ctx) []string {
 			inserts = append(inserts, i)
 		}
 	}
-	if len(locks) != 1 || len(inserts) != 1 {
-		c.Fail("LOCK/log-insert", key+":statements", pos(c, d.Decl), fmt.Sprintf("InsertLog must contain one lock statement and one insert (found %d and %d)", len(locks), len(inserts)))
+	if len(locks) == 0 && len(inserts) >= 1 {
+		c.Fail("LOCK/log-insert", key+":statements", pos(c, d.Decl), "InsertLog takes no pg_advisory_xact_lock before inserting the log row")
 		return vals
 	}
-	before := stmts[locks[0]].Pos() < stmts[inserts[0]].Pos()
+	if len(locks) != 1 || len(inserts) != 1 {
+		c.Unrecognised("LOCK/log-insert", key+":statements", pos(c, d.Decl), fmt.Sprintf("expected one lock statement and one insert in InsertLog and its helpers (found %d and %d)", len(locks), len(inserts)))
+		return vals
+	}
+	lk, in := stmts[locks[0]], stmts[inserts[0]]
+	lp, ip := rootPosOf(d, lk.D, lk.S.Pos()), rootPosOf(d, in.D, in.S.Pos())
+	before := lp != token.NoPos && ip != token.NoPos && lp < ip
 	// lock error leaves the function
-	errLeaves := false
-	ast.Inspect(d.Decl.Body, func(n ast.Node) bool {
-		is, ok := n.(*ast.IfStmt)
-		if ok && is.Pos() > stmts[locks[0]].Pos() && is.Pos() < stmts[inserts[0]].Pos() && len(errorCondVars(info, is.Cond)) > 0 && astx.Terminates(info, is.Body.List) {
-			errLeaves = true
-		}
-		return true
-	})
-	c.Check(before && errLeaves, "LOCK/log-insert", key+":lock-before-insert", pos(c, d.Decl), "lock, error returns, then insert", "the lock must be taken (and its error returned) before the log row is inserted")
+	leaves := false
+	if site := callSiteIn(d, lk.D); site != nil {
+		leaves = errLeaves(info, d.Decl.Body, site) || assignedErrChecked(info, d.Decl.Body, site)
+	} else {
+		ast.Inspect(d.Decl.Body, func(n ast.Node) bool {
+			is, ok := n.(*ast.IfStmt)
+			if ok && is.End() > lk.S.Pos() && is.Pos() < ip && len(errorCondVars(info, is.Cond)) > 0 && astx.Terminates(info, is.Body.List) {
+				leaves = true
+			}
+			return true
+		})
+	}
+	c.Check(before && leaves, "LOCK/log-insert", key+":lock-before-insert", pos(c, d.Decl), "lock, error returns, then insert", "the lock must be taken (and its error returned) before the log row is inserted")
 	sort.Strings(vals)
 	return vals
 }
